@@ -17,6 +17,16 @@ Proof. exact indent_lines_structure. Qed.
 Theorem C19_empty_prefix : forall s, indent s [] = s.
 Proof. exact indent_nil_prefix. Qed.
 
+(* same number of line breaks (prefix without LF; AuditFacts.indent_count_lf_needs_lf_free_prefix) *)
+From TW Require Import AuditFacts.
+Theorem C19_line_breaks_preserved :
+  forall (s : Chars.str) (p : list Chars.char),
+         List.Forall (fun c : Chars.char => c <> Chars.LF) p ->
+         List.count_occ BinNat.N.eq_dec (Indent.indent s p) Chars.LF =
+         List.count_occ BinNat.N.eq_dec s Chars.LF.
+Proof. exact (@indent_count_lf). Qed.
+
+Print Assumptions C19_line_breaks_preserved.
 Print Assumptions C19_spec.
 Print Assumptions C19_line_structure.
 Print Assumptions C19_empty_prefix.
